@@ -335,6 +335,9 @@ func c19Template(t reflect.Type, parentID string, idx int) interface{} {
 			w = 0
 		}
 		return c19Obj{"cluster": c19Obj{"name": fmt.Sprintf("c19Cluster%d", idx), "weight": w}}
+	case reflect.TypeOf(v2.HeaderValueOption{}):
+		// the router dereferences header without a nil check: an option without a header is not a valid configuration
+		return c19Obj{"header": c19Obj{"key": fmt.Sprintf("c19hk%d", idx), "value": fmt.Sprintf("c19hv%d", idx)}}
 	case reflect.TypeOf(v2.ExtendConfig{}):
 		return c19Obj{"type": fmt.Sprintf("c19ext%d", idx), "config": c19Obj{}}
 	}
@@ -483,8 +486,6 @@ func (x *c19Gen) values(s *c19Site) []c19Val {
 		return eq("TLSv1_3", "TLSv1_2")
 	case "v2.TLSConfig.alpn":
 		return eq("h2,http/1.1")
-	case "v2.TLSConfig.type":
-		return eq("") // only the default extension is registered in a stock binary; "" is indistinguishable from absent
 	case "v2.Cluster.type":
 		return eq("SIMPLE", "STRICT_DNS")
 	case "v2.Cluster.lb_type":
@@ -673,7 +674,7 @@ func (x *c19Gen) leafMuts(s *c19Site) []c19Mut {
 				for k, fv := range obj {
 					m.Expect = append(m.Expect, c19Expect{Field: s.ID + " (file content " + k + ")",
 						Path:  []c19Step{{Key: "dirs"}, {Key: c19TMP + "/" + strings.TrimSuffix(dir, "/")}, {Key: file}, {Key: k}},
-						Value: fv, Cmp: "eq"})
+						Value: fv, Cmp: "subset"})
 				}
 			}
 		}
@@ -863,6 +864,21 @@ func c19Build(ms ...c19Mut) c19FieldCase {
 			c.Files[f] = content
 		}
 	}
+	// a companion value that another mutation of the case overrides is not expected
+	set := map[string]bool{}
+	for _, m := range ms {
+		for _, a := range m.Sets {
+			set[c19StepsString(c19StepsOf(c19ConfigPath(a.Path)))] = true
+		}
+	}
+	kept := c.Expect[:0]
+	for _, e := range c.Expect {
+		if strings.Contains(e.Field, " (companion ") && set[c19StepsString(c19StepsOf(e.Path))] {
+			continue
+		}
+		kept = append(kept, e)
+	}
+	c.Expect = kept
 	c.Desc = strings.Join(descs, " × ")
 	c.Config = doc
 	return c
@@ -1047,6 +1063,48 @@ func c19SemEq(a, b interface{}) bool {
 	return c19JSON(a) == c19JSON(b)
 }
 
+// c19SubsetDiff: every value of want must be in got at the same place (objects
+// of got may have more keys). Returns the first place where that fails.
+func c19SubsetDiff(path string, want, got interface{}) (string, interface{}, interface{}) {
+	switch w := want.(type) {
+	case map[string]interface{}:
+		g, ok := got.(map[string]interface{})
+		if !ok {
+			return path, want, got
+		}
+		keys := make([]string, 0, len(w))
+		for k := range w {
+			keys = append(keys, k)
+		}
+		sort.Strings(keys)
+		for _, k := range keys {
+			gv, ok := g[k]
+			if !ok {
+				return path + "." + k, w[k], nil
+			}
+			if p, a, b := c19SubsetDiff(path+"."+k, w[k], gv); p != "" {
+				return p, a, b
+			}
+		}
+		return "", nil, nil
+	case []interface{}:
+		g, ok := got.([]interface{})
+		if !ok || len(g) != len(w) {
+			return path, want, got
+		}
+		for i := range w {
+			if p, a, b := c19SubsetDiff(fmt.Sprintf("%s[%d]", path, i), w[i], g[i]); p != "" {
+				return p, a, b
+			}
+		}
+		return "", nil, nil
+	}
+	if !c19SemEq(want, got) {
+		return path, want, got
+	}
+	return "", nil, nil
+}
+
 // c19CheckExpect returns "" when the dump shows the expected value, else what
 // happened: dropped / changed / re-typed, with a detail.
 func c19CheckExpect(doc interface{}, e c19Expect, tmp string) (what, detail string) {
@@ -1103,6 +1161,12 @@ func c19CheckExpect(doc interface{}, e c19Expect, tmp string) (what, detail stri
 		}
 		return "", ""
 	}
+	if e.Cmp == "subset" { // the dump may spell out defaults next to what the input set
+		if where2, w, g := c19SubsetDiff(where, want, got); where2 != "" {
+			return "changed", fmt.Sprintf("input set %s: %s = %s; the dump has %s there", e.Field, where2, c19Short(w), c19Short(g))
+		}
+		return "", ""
+	}
 	if c19TypeName(got) != c19TypeName(want) {
 		return "re-typed", fmt.Sprintf("input set %s = %s (%s); the dump has %s (%s) at %s", e.Field, c19Short(want), c19TypeName(want), c19Short(got), c19TypeName(got), where)
 	}
@@ -1131,9 +1195,9 @@ type c19Outcome struct {
 // blame maps a failing case to an already known single-field key (see pairs).
 func c19RunFieldCase(p *vreport.Part, c c19FieldCase, dir string, blame func(c c19FieldCase, kind string) string) c19Outcome {
 	var o c19Outcome
-	os.RemoveAll(dir)
+	// dir is a fresh directory below t.TempDir(); nothing is ever removed by the
+	// harness itself (the testing package removes the temp dir at the end)
 	os.MkdirAll(filepath.Join(dir, "conf"), 0755)
-	defer os.RemoveAll(dir)
 	for f, content := range c.Files {
 		fp := filepath.Join(dir, f)
 		os.MkdirAll(filepath.Dir(fp), 0755)
